@@ -3,7 +3,7 @@ import os
 import common
 from common import cq_list
 
-THEOREMS = ["c19_blocks", "c19_complete", "c19_sound", "c19_monotone", "c19_single", "c19_lint_ips", "c19_lint_nets"]
+THEOREMS = ["c19_blocks", "c19_complete", "c19_sound", "c19_monotone", "c19_single", "c19_spelling", "c19_lint_ips", "c19_lint_nets"]
 
 
 def run(ctx):
@@ -28,9 +28,9 @@ def run(ctx):
         "closed": ("every address class excluded by IsGlobalUnicast (0.0.0.0, broadcast, 127/8, 224/4, 169.254/16, ff00::/8, fe80::/10) sits inside a table network - the hypothesis of c19_complete / c19_monotone",
                    "Lemma tbl_wf : table_wf tbl = true.\nProof. vm_compute. reflexivity. Qed.\n"
                    "Lemma tbl_closed : table_closed tbl = true.\nProof. vm_compute. reflexivity. Qed.\n"
-                   "Theorem complete_here : forall a x, net_ok a -> canonical a -> addr_ok x -> contains a x = true -> is_reserved tbl x = true -> intersects tbl a = true.\n"
+                   "Theorem complete_here : forall a x, net_ok a -> addr_ok x -> contains a x = true -> is_reserved tbl x = true -> intersects tbl a = true.\n"
                    "Proof. exact (fun a x => c19_complete tbl a x tbl_wf tbl_closed). Qed.\n"
-                   "Theorem monotone_here : forall a b, net_ok a -> net_ok b -> canonical a -> canonical b -> subnet b a = true -> intersects tbl b = true -> intersects tbl a = true.\n"
+                   "Theorem monotone_here : forall a b, net_ok a -> net_ok b -> subnet b a = true -> intersects tbl b = true -> intersects tbl a = true.\n"
                    "Proof. exact (fun a b => c19_monotone tbl a b tbl_wf tbl_closed). Qed.\n"),
         "special": ("every special-purpose block of the statement is reserved in full (inside a table network or an excluded class; 224/4 by its sixteen /8 pieces; single addresses directly); well-known public addresses are not reserved",
                     "Definition pieces (b : net) : list net :=\n"
@@ -73,7 +73,7 @@ def run(ctx):
         common.report_disagreements(ctx, "net", f2, "Kernels.Ip.intersects", [])
         common.report_disagreements(ctx, "lints", f3, "Kernels.Ip.lint_ips/lint_nets", [])
     ctx.cov["rule"] = ("addresses: first/last/neighbours/midpoint of every table and statement block in both byte forms, random; networks: every block, every super-net at every shorter "
-                      "prefix (IPv6: every 4th in quick), random sub-nets, random canonical networks; lints on certificates with chosen iPAddress SANs, IP common names and "
+                      "prefix (IPv6: every 4th in quick), random sub-nets, random networks in canonical spelling and with host bits left in the address; name constraints in both spellings; lints on certificates with chosen iPAddress SANs, IP common names and "
                       "permitted name constraints; distinct = (family, prefix bucket, verdict) classes")
     ctx.notes["stats"] = d.get("stats")
     ctx.notes["table_size"] = data["table_size"]
